@@ -148,6 +148,18 @@ def _read_arms(ctx):
                     vs.add(v)
         if "Write" in vs:
             ok = False
+    # a failed attempt leaves the holder untouched: after `lock.take()` every path to a return re-assigns the field
+    takes = [w for w in prog.writers().get((RSTATE, "lock"), []) if w["fn"] == k and w["kind"] == "borrow_mut"]
+    stores = [w["bb"] for w in prog.writers().get((RSTATE, "lock"), []) if w["fn"] == k and w["kind"] == "assign" and w["exact"]]
+    for w in takes:
+        cons = prog.borrow_consumer(w["fn"], w["bb"], w["idx"])
+        if cons and callee_path(cons[1]) == "std::option::Option::<T>::take":
+            if every_path_passes(body, stores, start=cons[0]) or not stores and False:
+                ctx.ok("L1r", "rt::rwlock::RwLock::post_acquire_read_lock:restore", "the taken holder is written back on every path", [site_str(prog, k, cons[0])])
+            else:
+                ctx.bad("L1r", "rt::rwlock::RwLock::post_acquire_read_lock", "a path takes the lock holder out of the state and returns without writing it "
+                        "back: a failed try_read erases the writer's ownership and the next acquirer coexists with the writer",
+                        site_str(prog, k, cons[0]), detail="restore")
     # the Write arm leads to `return false` (success return unreachable)
     rets = blocks_assigning_ret(body, lambda e: is_const_bool(e, True))
 
@@ -208,6 +220,19 @@ def L2(ctx):
                 ctx.ok("L2", fk, "asserts %s()" % post.split("::")[-1], [fn.loc()])
             else:
                 ctx.bad("L2", fk, "blocking acquire does not assert the outcome of %s" % post, fn.loc())
+    # try-acquires register a branch point but never block the caller
+    for fk in ("rt::mutex::Mutex::try_acquire_lock", "rt::rwlock::RwLock::try_acquire_read_lock", "rt::rwlock::RwLock::try_acquire_write_lock"):
+        root = prog.ident(fk)
+        if root is None:
+            continue
+        n += 1
+        ea = EventAnalysis(prog, lambda p_, i, b, t, c: (["block"] if p_.callee_key(c) == T + "::set_blocked" and
+                                                         g_state.receiver_is_active(p_.body_of(i), t) else [])).solve([root])
+        if "block" in ea.may.get(root, ()):
+            ctx.bad("L2", fk, "a try-acquire can mark the calling thread Blocked: try_lock/try_read/try_write then wait for the lock "
+                    "instead of failing with WouldBlock", prog.fns[fk].loc(), detail="blocks")
+        else:
+            ctx.ok("L2", fk + ":non-blocking", "never blocks the caller", [prog.fns[fk].loc()])
     # front-ends: Ok(guard) iff the rt try-acquire returned true
     fronts = [("sync::mutex::Mutex::<T>::try_lock", "rt::mutex::Mutex::try_acquire_lock"),
               ("sync::rwlock::RwLock::<T>::try_read", "rt::rwlock::RwLock::try_acquire_read_lock"),
@@ -233,7 +258,7 @@ def L2(ctx):
             ctx.ok("L2", fk, "Ok(guard) iff %s()" % tr.split("::")[-1], [site_str(prog, fk, okb)])
         else:
             ctx.bad("L2", fk, "try-lock front-end does not return Ok exactly when %s succeeded" % tr, fn.loc())
-    ctx.floor("L2", n, 9, "6 rt + 3 front-end")
+    ctx.floor("L2", n, 12, "6 rt + 3 non-blocking + 3 front-end")
 
 
 def L3(ctx):
